@@ -424,6 +424,12 @@ def make_replay(prop, unit, chk, res, violation, rep, scratch):
     }
     confirmed = False
     note = ''
+    if res.get('mode') == 'native_bounded':
+        # the check itself ran the real function text natively on the failing input: its output is the replay
+        doc['native_replay'] = {'status': 'confirmed', 'output': res.get('native_output', '')}
+        doc['confirmed_on_real_code'] = True
+        json.dump(doc, open(path, 'w'), indent=1)
+        return path, True, 'native bounded enumeration on the real code'
     if chk.get('replay', True) and (inputs or not chk.get('enforce')):
         wd = os.path.join(scratch, 'twin', safe)
         try:
